@@ -542,6 +542,9 @@ GuardsRetCreate(st, e) ==
      G("create_no_spurious_failure", {"C15"}, (c.failed = NONE /\ ~Missing(st.cfg) /\ ~Cyclic(st.cfg)) => err = {}, NONE),
      G("failed_create_closes_all", {"C10", "C14"}, err # {} => AllClosed(st, {i \in created : st.inst[i].disp}), NONE),
      G("ok_create_closes_nothing", {"C10"}, err = {} => c.ncl = 0, NONE),
+     \* the scope object the initialization functions of a failed creation were handed: its context is cancelled
+     \* when the call returns (nothing they bound to that context stays alive)
+     G("failed_create_cancels_context", {"C14"}, (err # {} /\ "orphan" \in DOMAIN e) => e.orphan = "canceled", NONE),
      G("initializers_ran_once", {"C02"}, err = {} =>
           \A id \in LiveRegIds(st.cfg) : (IsInit(Reg(st.cfg, id)) /\ LifeOf(st.cfg, id) = "scoped") => <<id, c.name>> \in st.okruns, NONE),
      G("create_ctx_linked", {"C18"}, err = {} => e.ctxok, NONE)}
